@@ -59,10 +59,10 @@ def meta_part(rep, tier):
     n = 4 if tier == "quick" else 6
     name = "_gen_MC_Meta.cfg"
     with open(os.path.join(common.VERIF, "spec", name), "w") as f:
-        f.write(f"CONSTANTS\n  Alphabet = {{97, 98, 32, 58, 45, 46, 49}}\n  MaxLen = {n}\nINIT Init\nNEXT Next\n"
+        f.write(f"CONSTANTS\n  Alphabet = {{97, 98, 32, 58, 45, 46, 49, 44}}\n  MaxLen = {n}\nINIT Init\nNEXT Next\n"
                 "INVARIANT NoColonNoFields\nINVARIANT ValuesStripped\nINVARIANT KeysAreWords\nINVARIANT Emit\nCHECK_DEADLOCK FALSE\n")
     res = require_ok(run_tlc("Meta", name, timeout=1500, keep_stdout=False), "MC_Meta")
-    rep.add_tlc(f"Meta: every comment over {{a, b, blank, colon, -, ., 1}} up to length {n}", res)
+    rep.add_tlc(f"Meta: every comment over {{a, b, blank, colon, -, ., 1, comma}} up to length {n}", res)
     if res.invariant_violated:
         rep.violation({"kind": "spec", "invariant": res.invariant_violated})
         return
